@@ -369,8 +369,45 @@ func (res *CheckResult) checkExpression(lit parser.ValueExpr, requiredType strin
 	case *parser.StringLiteral:
 		res.assertHasType(lit, requiredType, TypeString)
 	case *parser.BinaryInfix:
-		res.checkExpression(lit.Left, TypeAny)
-		res.checkExpression(lit.Right, TypeAny)
+		// both operands of + and - are numbers, or both are monetaries,
+		// and so is the result
+		operandsType := requiredType
+		if operandsType != TypeNumber && operandsType != TypeMonetary {
+			operandsType = res.inferType(lit.Left)
+			if operandsType != TypeNumber && operandsType != TypeMonetary {
+				operandsType = TypeNumber
+			}
+			res.assertHasType(lit, requiredType, operandsType)
+		}
+		res.checkExpression(lit.Left, operandsType)
+		res.checkExpression(lit.Right, operandsType)
+	}
+}
+
+// Best-effort type of an expression (TypeAny when it cannot be known)
+func (res *CheckResult) inferType(lit parser.ValueExpr) string {
+	switch lit := lit.(type) {
+	case *parser.Variable:
+		if decl, ok := res.declaredVars[lit.Name]; ok && decl.Type != nil {
+			return decl.Type.Name
+		}
+		return TypeAny
+	case *parser.MonetaryLiteral:
+		return TypeMonetary
+	case *parser.AccountLiteral:
+		return TypeAccount
+	case *parser.RatioLiteral:
+		return TypePortion
+	case *parser.AssetLiteral:
+		return TypeAsset
+	case *parser.NumberLiteral:
+		return TypeNumber
+	case *parser.StringLiteral:
+		return TypeString
+	case *parser.BinaryInfix:
+		return res.inferType(lit.Left)
+	default:
+		return TypeAny
 	}
 }
 
